@@ -1,4 +1,9 @@
 pub mod c01;
+pub mod c02;
+pub mod c03;
+pub mod c07;
+pub mod c12;
+pub mod c20;
 
 use crate::ctx::{Case, Ctx};
 
@@ -10,8 +15,12 @@ pub struct Monitor {
     pub generate: fn(&mut Ctx),
 }
 
+macro_rules! m {
+    ($id:literal, $m:ident) => {
+        Monitor { id: $id, rule: $m::RULE, mandatory: $m::MANDATORY, exec: $m::exec, generate: $m::generate }
+    };
+}
+
 pub fn registry() -> Vec<Monitor> {
-    vec![
-        Monitor { id: "C01", rule: c01::RULE, mandatory: c01::MANDATORY, exec: c01::exec, generate: c01::generate },
-    ]
+    vec![m!("C01", c01), m!("C02", c02), m!("C03", c03), m!("C07", c07), m!("C12", c12), m!("C20", c20)]
 }
